@@ -445,6 +445,49 @@ func init() {
 		}
 	}}
 
+	// ops.seq <op,op,...> <spare> <items>: a history of operations on one list, operations repeated (nothing is
+	// remembered between calls)
+	streams["ops.seq"] = stream{exec: func(a []string) string {
+		xs, _ := decMItems(a[2:])
+		s, ids := buildSubs(xs, int(atoi64(a[1])))
+		for _, op := range strings.Split(a[0], ",") {
+			p := strings.Split(op, ":")
+			if p[0] == "force" {
+				s.ForceDuration(time.Duration(atoi64(p[1])), p[2] == "1")
+				continue
+			}
+			applyOps(s, []string{op})
+		}
+		return encMItems(observe(s.Items, ids))
+	}, gen: func(c *ctx) {
+		r := newRng(c.seed, "ops.seq")
+		n := 6000
+		if c.thorough {
+			n = 300000
+		}
+		for i := 0; i < n; i++ {
+			xs := randList(r, 6, true)
+			for j := range xs {
+				xs[j].start = r.rangeI(0, 20) * int64(time.Second)
+				xs[j].end = xs[j].start + r.rangeI(0, 8)*int64(time.Second)
+			}
+			sortByStart(xs)
+			f := r.rangeI(1, 5) * int64(time.Second)
+			d := r.rangeI(-6, 6) * int64(time.Second)
+			pool := []string{fmt.Sprintf("add:%d", d), fmt.Sprintf("add:%d", -d), fmt.Sprintf("frag:%d", f), fmt.Sprintf("frag:%d", 2*f), "unfrag", "order",
+				fmt.Sprintf("force:%d:%d", r.rangeI(1, 30)*int64(time.Second), r.intn(2)), "lin:1000000000:2000000000:5000000000:8000000000"}
+			var ops []string
+			for k := 2 + r.intn(3); k > 0; k-- {
+				ops = append(ops, pool[r.intn(len(pool))])
+			}
+			if r.chance(1, 3) { // the same operation twice in a row
+				ops = append(ops, ops[len(ops)-1])
+			}
+			c.do(fmt.Sprintf("ops.seq %s %d %s", strings.Join(ops, ","), r.intn(3), encMItems(xs)))
+			c.count("histories")
+		}
+	}}
+
 	// conv.kf: same execution as conv.pair, judged with the strict text clause for every destination; generates
 	// nothing, only replays the known-finding witness (destination STL under a teletext display standard)
 	streams["conv.kf"] = stream{exec: streams["conv.pair"].exec, gen: func(c *ctx) {}}
